@@ -589,6 +589,12 @@ func mapOrderedCollectionPageProperties(mm map[string][]byte, c OrderedCollectio
 		hasData, err = mapOrderedCollectionProperties(mm, *c)
 		return err
 	})
+	if c.StartIndex > 0 {
+		if mm["startIndex"], err = gobEncodeUint(c.StartIndex); err != nil {
+			return hasData, err
+		}
+		hasData = true
+	}
 	if c.PartOf != nil {
 		if mm["partOf"], err = gobEncodeItem(c.PartOf); err != nil {
 			return hasData, err
